@@ -105,6 +105,7 @@ type SimRequest struct {
 	Answer   string   // what the server did with it
 	Applied  bool
 	Err      error
+	Result   any   // what the server answered (set when the request completes successfully)
 	Finished int64 // virtual time at which the callback ran (0 = never)
 	IssuedOrder, FinishedOrder int // global event order stamps
 	Cancelled bool
@@ -161,6 +162,10 @@ type SimCluster struct {
 	// OnDeliver is called on the DCP thread right before (after=false) and right after (after=true)
 	// the observer callback of a packet.
 	OnDeliver func(p *SimPacket, after bool)
+	// OnComplete is called right before the callback of a request runs (r.Err / r.Result are set),
+	// OnCompleted right after it returned.
+	OnComplete  func(r *SimRequest)
+	OnCompleted func(r *SimRequest)
 	// OnApply is called right after a KV write has been applied.
 	OnApply func(w *SimWrite)
 
@@ -579,12 +584,21 @@ func (r *SimRequest) complete(res any, err error) {
 		vrt.Yield(-4)
 	}
 	r.Err = err
+	if err == nil {
+		r.Result = res
+	}
+	if r.ag != nil && r.ag.c.OnComplete != nil {
+		r.ag.c.OnComplete(r)
+	}
 	r.Finished = vrt.NowNanos()
 	if r.ag != nil {
 		r.ag.c.order++
 		r.FinishedOrder = r.ag.c.order
 	}
 	r.finish(res, err)
+	if r.ag != nil && r.ag.c.OnCompleted != nil {
+		r.ag.c.OnCompleted(r)
+	}
 }
 
 // Cancel implements PendingOp: exactly-once completion, callback synchronously in the caller.
